@@ -28,6 +28,7 @@ def _worker(job):
         fn = getattr(mod, task["fn"])
         harness = fn(**task.get("args", {}))
         deadline = t0 + task.get("budget_s", 600)
+        core.SOLVER_TIMEOUT_MS = task.get("solver_timeout_ms", 30000)
         res = core.explore(harness, max_paths=task.get("max_paths", 100000), deadline=deadline)
         out.update(paths=res.paths, completed=res.completed, aborted=res.aborted, violations=res.violations,
                    inconclusive=res.inconclusive, checks=res.checks, solver_s=res.solver_s, labels=res.labels,
